@@ -53,6 +53,8 @@ var orderContracts = map[string]orderContract{
 	"(*MapPollard).VerifyPartialProof": {[]fieldOC{nil, {"": raw("T")}, {"": raw("T")}, {"": OC{ocBuilt, "partial proof"}}}},
 	// GetMissingPositions(origTargets []uint64)
 	"(*MapPollard).GetMissingPositions": {[]fieldOC{nil, {"": raw("T")}}},
+	// func NewMapPollardFromRoots(rootHashes []Hash, numLeaves uint64, full bool)
+	"NewMapPollardFromRoots": {[]fieldOC{{"": OC{ocBuilt, "roots"}}}},
 	// func GetMissingPositions(numLeaves uint64, proofTargets, desiredTargets []uint64)
 	"GetMissingPositions": {[]fieldOC{nil, {"": raw("P")}, {"": raw("D")}}},
 	// func AddProof(proofA, proofB Proof, targetHashesA, targetHashesB []Hash, numLeaves uint64)
@@ -691,6 +693,8 @@ func runC14(p *Program, r *Report) {
 		}
 		checkThreadedState(p, r, "R14i", es, 1)
 	}
+	r.Rule("R14l", "SUBTRACTION-NOT-SKIPPED: a subtraction step of the proof combination runs on every path, or is skipped only on a test of the length of the list being subtracted")
+	checkSubtractionNotSkipped(p, r, "R14l", "AddProof", 2)
 	r.Rule("R14j", "JOINT-PROOF-POSITIONS: the single-target proof-position helper is never called in a loop whose results are accumulated into one list (the proof of several targets is computed by the joint function)")
 	checkJointProofPositions(p, r, "R14j")
 }
